@@ -183,7 +183,7 @@ LEMMA2 = {
 for copy in (False, True):
     contract(
         M_ + '_precompute_summary_stats_from_h5ad_and_lookup#split' + ('_copy' if copy else ''),
-        properties=['C09', 'C04'],
+        properties=['C09', 'C04', 'C18'],
         mode='slice',
         tracked=['data_path_list', 'data_path', 'cell_name_list', 'desired_cells', 'n_overlap', 'n_cells',
                  'path_to_cells', 'n_total_cells', 'new_data_path_list', 'new_path', 'buffer_dir', 'n_per',
@@ -227,11 +227,23 @@ for copy in (False, True):
             'i_worker += 1': ["i_worker * (n_per + 1) <= n_per * n_processors and i_worker < n_processors"],
             # C09.a / C04.d: the work lists are final before the first buffer / worker is created
             'buffer_path_list = []': FINAL + [f"len({W}) == {M}", "len(started) == 0"],
+            # C18.a (writer side of the interface): every cell named by the lookup is accumulated into
+            # the row of its cluster in the table that is written as `cluster_to_row`
+            # (stated after the drain loop, i.e. at the call of _create_empty_stats_file)
+            'while len(process_list) > 0': [
+                "all(k in cell_name_to_output_row and cell_name_to_output_row[k] == "
+                "cluster_to_output_row[cell_name_to_cluster_name[k]] for k in cell_name_to_cluster_name)",
+                "n_clusters == len(cluster_to_output_row)"],
         },
         loops={
             # C09.b: the cell -> buffer row lookup only holds rows of the buffers
             1: ["all(0 <= cell_name_to_output_row[k] and cell_name_to_output_row[k] < n_clusters "
-                "for k in cell_name_to_output_row)"],
+                "for k in cell_name_to_output_row)",
+                # C18.a: the buffer row of a cell is the row that the file's own cluster_to_row table
+                # (= cluster_to_output_row, handed unchanged to _create_empty_stats_file) gives its cluster
+                "all(k in cell_name_to_cluster_name and cell_name_to_output_row[k] == "
+                "cluster_to_output_row[cell_name_to_cluster_name[k]] for k in cell_name_to_output_row)",
+                "all(k in cell_name_to_output_row for k in _seen)"],
             2: LOOP2[copy],
             3: [f"len({W}) == ii", f"all(len({W}[w]) == 0 for w in range(len({W})))", "0 <= ii"],
             4: FACTS_D + SCALARS + [f"i_worker * (n_per + 1) + this_n_cells <= {POS4}",
@@ -280,9 +292,11 @@ def _gen_process_chunk(rng, size):
     r1 = rng.randint(r0 + 1, n_file)
     n_genes = rng.randint(1, 3)
     data = np.array([[float(rng.randint(0, 4)) for _ in range(n_genes)] for _ in range(r1 - r0)])
-    buf = {'n_cells': np.zeros(n_clusters, dtype=int)}
+    # buffers already hold the contribution of earlier chunks (non-zero), so `+=` differs from `=`
+    buf = {'n_cells': np.array([rng.randint(0, 3) for _ in range(n_clusters)], dtype=int)}
     for k, dt in (('sum', float), ('sumsq', float), ('gt0', int), ('gt1', int), ('ge1', int)):
-        buf[k] = np.zeros((n_clusters, n_genes), dtype=dt)
+        buf[k] = np.array([[rng.randint(0, 3) for _ in range(n_genes)] for _ in range(n_clusters)],
+                          dtype=dt).reshape(n_clusters, n_genes)
     return dict(chunk=(data, r0, r1), gene_names=[f"g{i}" for i in range(n_genes)],
                 cell_name_to_output_row=lookup, cell_name_list=names, bad_row_idx=-999,
                 normalization='log2CPM', n_clusters=n_clusters, buffer_dict=buf)
